@@ -5,7 +5,7 @@ import json, os, re, glob, sys
 root = os.path.dirname(os.path.dirname(os.path.abspath(__file__)))
 log = open(os.path.join(root, 'tools', 'evalseeds.log')).read() if os.path.exists(os.path.join(root, 'tools', 'evalseeds.log')) else ''
 res = {}
-for m in re.finditer(r'^(C\d+b?) suite_fail=(\d) search: (C\d+) quick exit=(\d+) (\d+)s(?: \| with witnesses: C\d+ quick exit=(\d+) (\d+)s)?', log, re.M):
+for m in re.finditer(r'^(C\d+[b-z]?) suite_fail=(\d) search: (C\d+) quick exit=(\d+) (\d+)s(?: \| with witnesses: C\d+ quick exit=(\d+) (\d+)s)?', log, re.M):
     res[m.group(1)] = dict(suite_fail=m.group(2), search=int(m.group(4)), secs=int(m.group(5)), witness=m.group(6))
 rows = []
 for d in sorted(glob.glob(os.path.join(root, 'seeded', 'C*'))):
